@@ -87,10 +87,10 @@ Section Gen.
           -- eapply EffR3; eauto.
           -- rewrite <- !app_assoc. reflexivity.
         * inv H1. exists [EvT TcFlush TPend]. split.
-          -- eapply (EffR2 s t cap TPend); eauto. discriminate.
+          -- eapply EffR2 with (a := TPend); eauto. discriminate.
           -- rewrite <- !app_assoc. reflexivity.
         * inv H1. exists [EvT TcFlush (TErr k)]. split.
-          -- eapply (EffR2 s t cap (TErr k)); eauto. discriminate.
+          -- eapply EffR2 with (a := TErr k); eauto. discriminate.
           -- rewrite <- !app_assoc. reflexivity.
       + apply rbind_ok in H1. destruct H1 as ([a1 tt1] & Rd & H1). inv H1.
         exists [EvT (TcRead cap) a]. split.
@@ -116,7 +116,10 @@ Section Gen.
     cb_effect s t c tev r s1 t1 ->
     count is_tcall tev <= 2 /\ length tev = count is_tcall tev /\
     (count is_tcall tev = 0 -> c = CbFlush /\ handshaken s = false).
-  Proof. intros H; inv H; cbn; repeat split; try lia; discriminate. Qed.
+  Proof.
+    intros H; inv H; cbn; (split; [lia|]); (split; [reflexivity|]); intros E0;
+      try discriminate E0; auto.
+  Qed.
 
   (* a callback reports WouldBlock exactly when its last transport call
      answered Pending — the transport then holds the task's waker — and that is
@@ -126,35 +129,34 @@ Section Gen.
     (r = RWouldBlock -> count is_tpend tev = 1 /\ exists pre c', tev = pre ++ [EvT c' TPend]) /\
     (r <> RWouldBlock -> count is_tpend tev = 0).
   Proof.
+    assert (G : forall a pre c',
+      count is_tpend pre = 0 ->
+      (ret_of a = RWouldBlock ->
+         count is_tpend (pre ++ [EvT c' a]) = 1 /\ exists pre0 c0, pre ++ [EvT c' a] = pre0 ++ [EvT c0 TPend]) /\
+      (ret_of a <> RWouldBlock -> count is_tpend (pre ++ [EvT c' a]) = 0)).
+    { intros a pre c' Hp. rewrite count_app, Hp. destruct a; cbn; split; intros HH;
+        try discriminate HH; try reflexivity.
+      - split; [reflexivity|]. exists pre, c'. reflexivity.
+      - exfalso. apply HH. reflexivity. }
     intros H; inv H.
-    - destruct a; cbn; split; intros; try discriminate; try congruence; auto.
-      split; auto. exists [], (TcRead cap). reflexivity.
-    - destruct a; cbn; split; intros; try discriminate; try congruence; auto.
-      + exfalso. eapply H2. reflexivity.
-      + split; auto. exists [], TcFlush. reflexivity.
-    - destruct a; cbn; split; intros; try discriminate; try congruence; auto.
-      split; auto. exists [EvT TcFlush (TOk x)], (TcRead cap). reflexivity.
-    - destruct a; cbn; split; intros; try discriminate; try congruence; auto.
-      split; auto. exists [], (TcWrite d). reflexivity.
-    - destruct a; cbn; split; intros; try discriminate; try congruence; auto.
-      split; auto. exists [], TcFlush. reflexivity.
-    - cbn; split; intros; try discriminate; auto.
+    - apply (G a [] (TcRead cap)). reflexivity.
+    - apply (G a [] TcFlush). reflexivity.
+    - apply (G a [EvT TcFlush (TOk x)] (TcRead cap)). reflexivity.
+    - apply (G a [] (TcWrite d)). reflexivity.
+    - apply (G a [] TcFlush). reflexivity.
+    - cbn. split; intros HH; [discriminate HH|reflexivity].
   Qed.
 
   (* -------------------------------------------------------------------- *)
   (* invariants of (flags, transport, log) kept by everything the layer does,
      for EVERY engine                                                      *)
 
-  Definition aux_ev (e : ev) : bool :=
-    match e with EvApi _ | EvPoll _ => true | _ => false end.
-
   Section Invariant.
     Variable I : shim -> T -> list ev -> Prop.
     Hypothesis I_cb : forall s t log c tev r s1 t1,
       I s t log -> cb_effect s t c tev r s1 t1 -> I s1 t1 (log ++ tev ++ [EvCb c r s1]).
-    Hypothesis I_aux : forall s t log e, I s t log -> aux_ev e = true -> I s t (log ++ [e]).
+    Hypothesis I_api : forall s t log r, I s t log -> I s t (log ++ [EvApi r]).
     Hypothesis I_fin : forall s t log, I s t log -> I (finish_handshake s) t (log ++ [EvFinish]).
-    Hypothesis I_wake : forall s t log, I s t log -> I s (t_wake tp t) (log ++ [EvWake]).
 
     Variable E : Type.
     Variable eng : E -> option cbret -> E * eact.
@@ -173,39 +175,7 @@ Section Gen.
       destruct (eng e inp) as [e' [c|r']].
       - apply rbind_ok in H. destruct H as ([[[ret s'] t'] log'] & C & H).
         eapply IH; [exact H|]. eapply inv_cb_run; eauto.
-      - inv H. apply I_aux; auto.
-    Qed.
-
-    Lemma inv_top_poll fuel e s t log h e1 s1 t1 log1 :
-      top_poll tp E eng fuel e s t log = Ok (h, e1, s1, t1, log1) -> I s t log -> I s1 t1 log1.
-    Proof.
-      unfold top_poll, api_call. intros H HI.
-      apply rbind_ok in H. destruct H as ([[[[r e'] s'] t'] log'] & A & H). inv H.
-      apply I_aux; auto. eapply inv_api_loop; eauto.
-    Qed.
-
-    Lemma inv_flush_poll s t log h s1 t1 log1 :
-      flush_poll tp s t log = Ok (h, s1, t1, log1) -> I s t log -> I s1 t1 log1.
-    Proof.
-      unfold flush_poll. intros H HI.
-      apply rbind_ok in H. destruct H as ([[[r s'] t'] log'] & C & H). inv H.
-      apply I_aux; auto. eapply inv_cb_run; eauto.
-    Qed.
-
-    Lemma inv_close_poll fuel sent e s t log h sent1 e1 s1 t1 log1 :
-      close_poll tp E eng fuel sent e s t log = Ok (h, sent1, e1, s1, t1, log1) ->
-      I s t log -> I s1 t1 log1.
-    Proof.
-      unfold close_poll, api_call. intros H HI. destruct sent.
-      - apply rbind_ok in H. destruct H as ([[[r s'] t'] log'] & F & H). inv H.
-        eapply inv_flush_poll; eauto.
-      - apply rbind_ok in H. destruct H as ([[[[r e'] s'] t'] log'] & A & H).
-        assert (HI' : I s' t' log') by (eapply inv_api_loop; eauto).
-        destruct r.
-        + apply rbind_ok in H. destruct H as ([[[r2 s2] t2] log2] & F & H). inv H.
-          eapply inv_flush_poll; eauto.
-        + inv H. apply I_aux; auto.
-        + inv H. apply I_aux; auto.
+      - inv H. apply I_api; auto.
     Qed.
 
     Lemma inv_hs_finish_flush first s t log h st s1 t1 log1 :
@@ -228,13 +198,11 @@ Section Gen.
       - inv H. auto.
     Qed.
 
-    Lemma inv_hs_poll fuel st e s t log h st1 e1 s1 t1 log1 :
-      hs_poll tp E eng fuel st e s t log = Ok (h, st1, e1, s1, t1, log1) ->
+    Lemma inv_hs_poll_body fuel st e s t log h st1 e1 s1 t1 log1 :
+      hs_poll_body tp E eng fuel st e s t log = Ok (h, st1, e1, s1, t1, log1) ->
       I s t log -> I s1 t1 log1.
     Proof.
-      unfold hs_poll, api_call. intros H HI.
-      apply rbind_ok in H. destruct H as ([[[[[h' st'] e'] s'] t'] log'] & B & H). inv H.
-      apply I_aux; auto.
+      unfold hs_poll_body, api_call. intros B HI.
       destruct st.
       - apply rbind_ok in B. destruct B as ([[[[r ea] sa] ta] loga] & A & B).
         assert (HIa : I sa ta loga) by (eapply inv_api_loop; eauto).
@@ -249,6 +217,50 @@ Section Gen.
         eapply inv_hs_finish_flush; eauto.
       - discriminate.
       - discriminate.
+    Qed.
+
+    Hypothesis I_poll : forall s t log h, I s t log -> I s t (log ++ [EvPoll h]).
+    Hypothesis I_wake : forall s t log, I s t log -> I s (t_wake tp t) (log ++ [EvWake]).
+
+    Lemma inv_top_poll fuel e s t log h e1 s1 t1 log1 :
+      top_poll tp E eng fuel e s t log = Ok (h, e1, s1, t1, log1) -> I s t log -> I s1 t1 log1.
+    Proof.
+      unfold top_poll, api_call. intros H HI.
+      apply rbind_ok in H. destruct H as ([[[[r e'] s'] t'] log'] & A & H). inv H.
+      apply I_poll; auto. eapply inv_api_loop; eauto.
+    Qed.
+
+    Lemma inv_flush_poll s t log h s1 t1 log1 :
+      flush_poll tp s t log = Ok (h, s1, t1, log1) -> I s t log -> I s1 t1 log1.
+    Proof.
+      unfold flush_poll. intros H HI.
+      apply rbind_ok in H. destruct H as ([[[r s'] t'] log'] & C & H). inv H.
+      apply I_poll; auto. eapply inv_cb_run; eauto.
+    Qed.
+
+    Lemma inv_close_poll fuel sent e s t log h sent1 e1 s1 t1 log1 :
+      close_poll tp E eng fuel sent e s t log = Ok (h, sent1, e1, s1, t1, log1) ->
+      I s t log -> I s1 t1 log1.
+    Proof.
+      unfold close_poll, api_call. intros H HI. destruct sent.
+      - apply rbind_ok in H. destruct H as ([[[r s'] t'] log'] & F & H). inv H.
+        eapply inv_flush_poll; eauto.
+      - apply rbind_ok in H. destruct H as ([[[[r e'] s'] t'] log'] & A & H).
+        assert (HI' : I s' t' log') by (eapply inv_api_loop; eauto).
+        destruct r.
+        + apply rbind_ok in H. destruct H as ([[[r2 s2] t2] log2] & F & H). inv H.
+          eapply inv_flush_poll; eauto.
+        + inv H. apply I_poll; auto.
+        + inv H. apply I_poll; auto.
+    Qed.
+
+    Lemma inv_hs_poll fuel st e s t log h st1 e1 s1 t1 log1 :
+      hs_poll tp E eng fuel st e s t log = Ok (h, st1, e1, s1, t1, log1) ->
+      I s t log -> I s1 t1 log1.
+    Proof.
+      unfold hs_poll. intros H HI.
+      apply rbind_ok in H. destruct H as ([[[[[h' st'] e'] s'] t'] log'] & B & H). inv H.
+      apply I_poll; auto. eapply inv_hs_poll_body; eauto.
     Qed.
 
     Lemma inv_hs_run : forall polls fuel st e s t log h st1 e1 s1 t1 log1,
@@ -267,3 +279,1116 @@ Section Gen.
   End Invariant.
 
 End Gen.
+
+(* ---------------------------------------------------------------------- *)
+(* the three engine-independent invariants                                  *)
+
+Lemma flat_map_app2 {A B} (f : A -> list B) l1 l2 : flat_map f (l1 ++ l2) = flat_map f l1 ++ flat_map f l2.
+Proof. apply flat_map_app. Qed.
+
+Section Props.
+  Context {T : Type} (tp : transport T).
+
+  (* (A) pass-through: what the engine was told = what the transport did *)
+  Definition I_bytes (s : shim) (t : T) (log : list ev) : Prop :=
+    eng_wrote log = tr_accepted log /\ eng_read log = tr_delivered log.
+
+  Lemma I_bytes_cb s t log c tev r s1 t1 :
+    I_bytes s t log -> cb_effect tp s t c tev r s1 t1 -> I_bytes s1 t1 (log ++ tev ++ [EvCb c r s1]).
+  Proof.
+    unfold I_bytes, eng_wrote, eng_read, tr_accepted, tr_delivered.
+    intros [H1 H2] Ef. rewrite !flat_map_app2, H1, H2.
+    inv Ef; try (destruct a); cbn; rewrite ?app_nil_r; split; try reflexivity;
+      match goal with Hn : forall x, TOk _ <> TOk x |- _ => exfalso; eapply Hn; reflexivity end.
+  Qed.
+
+  Definition plain_ev (e : ev) : bool :=
+    match e with EvApi _ | EvPoll _ | EvFinish | EvWake => true | _ => false end.
+
+  Lemma I_bytes_one s t log e s' t' :
+    I_bytes s t log -> plain_ev e = true -> I_bytes s' t' (log ++ [e]).
+  Proof.
+    unfold I_bytes, eng_wrote, eng_read, tr_accepted, tr_delivered.
+    intros [H1 H2] A. rewrite !flat_map_app2, H1, H2. destruct e; try discriminate A; cbn; auto.
+  Qed.
+
+  (* (B) flush before wait *)
+  Definition I_fbw (s : shim) (t : T) (log : list ev) : Prop :=
+    let '(hs, u, ok) := fbw log in
+    handshaken s = hs /\ ok = true /\ (hs = false -> written s = false -> u = []).
+
+  Lemma I_fbw_cb s t log c tev r s1 t1 :
+    I_fbw s t log -> cb_effect tp s t c tev r s1 t1 -> I_fbw s1 t1 (log ++ tev ++ [EvCb c r s1]).
+  Proof.
+    unfold I_fbw. rewrite fbw_app. destruct (fbw log) as [[hs u] ok].
+    intros (Hh & Hok & Hu) Ef. subst ok.
+    inv Ef; unfold flush_first in *.
+    - (* read without flushing first *)
+      cbn. destruct a; cbn; (split; [reflexivity|]); (split; [|assumption]);
+        (destruct (handshaken s1) eqn:E1; [reflexivity|]);
+        cbn in H; rewrite (Hu eq_refl H); reflexivity.
+    - (* flush that did not complete *)
+      apply andb_true_iff in H. destruct H as [Hn Hw].
+      destruct a; cbn; try (exfalso; eapply H1; reflexivity);
+        (split; [reflexivity|]); (split; [reflexivity|]); intros _ W; congruence.
+    - (* flush, then read *)
+      cbn. rewrite orb_true_r. cbn. destruct a; cbn; repeat split; auto.
+    - (* write *)
+      destruct a; cbn; repeat split; auto. intros _ W. discriminate W.
+    - (* flush after the handshake *)
+      destruct a; cbn; repeat split; auto; intros E1; congruence.
+    - cbn. repeat split; auto.
+  Qed.
+
+  Lemma I_fbw_aux s t log e :
+    I_fbw s t log -> (exists r, e = EvApi r) \/ (exists h, e = EvPoll h) -> I_fbw s t (log ++ [e]).
+  Proof.
+    unfold I_fbw. rewrite fbw_app. destruct (fbw log) as [[hs u] ok].
+    intros H [[r ->] | [h ->]]; cbn; exact H.
+  Qed.
+
+  Lemma I_fbw_fin s t log : I_fbw s t log -> I_fbw (finish_handshake s) t (log ++ [EvFinish]).
+  Proof.
+    unfold I_fbw. rewrite fbw_app. destruct (fbw log) as [[hs u] ok].
+    intros (Hh & Hok & Hu). cbn. repeat split; auto. discriminate.
+  Qed.
+
+  Lemma I_fbw_wake s t log t' : I_fbw s t log -> I_fbw s t' (log ++ [EvWake]).
+  Proof.
+    unfold I_fbw. rewrite fbw_app. destruct (fbw log) as [[hs u] ok]. cbn. auto.
+  Qed.
+
+  (* (C) at most two transport calls per callback *)
+  Definition I_calls (s : shim) (t : T) (log : list ev) : Prop :=
+    count is_tcall log <= 2 * count is_cb log.
+
+  Lemma count_le {A} (f : A -> bool) l : count f l <= length l.
+  Proof.
+    unfold count. induction l as [|a l IH]; cbn; [lia|]. destruct (f a); cbn; lia.
+  Qed.
+
+  Lemma count_cons {A} (f : A -> bool) a l : count f (a :: l) = (if f a then 1 else 0) + count f l.
+  Proof. unfold count. cbn. destruct (f a); reflexivity. Qed.
+
+  Lemma count_tcall_only tev : length tev = count is_tcall tev -> count is_cb tev = 0.
+  Proof.
+    induction tev as [|e l IH]; [reflexivity|].
+    rewrite !count_cons. cbn [length]. pose proof (count_le is_tcall l) as Le.
+    destruct e; cbn; intros H; lia.
+  Qed.
+
+  Lemma I_calls_cb s t log c tev r s1 t1 :
+    I_calls s t log -> cb_effect tp s t c tev r s1 t1 -> I_calls s1 t1 (log ++ tev ++ [EvCb c r s1]).
+  Proof.
+    unfold I_calls. intros H Ef. apply cb_effect_calls in Ef. destruct Ef as (L2 & Len & _).
+    rewrite !count_app. rewrite (count_tcall_only _ Len). cbn. lia.
+  Qed.
+
+  Lemma I_calls_one s t log e s' t' :
+    I_calls s t log -> is_tcall e = false -> I_calls s' t' (log ++ [e]).
+  Proof.
+    unfold I_calls. intros H N. rewrite !count_app. unfold count at 2. cbn. rewrite N. cbn. lia.
+  Qed.
+End Props.
+
+(* ---------------------------------------------------------------------- *)
+(* what the checker [fbw] means                                             *)
+
+Lemma fbw_components : forall log,
+  fbw log = (existsb is_finish log, unflushed log, fbw_ok log).
+Proof.
+  intros log. induction log as [|e l IH] using rev_ind.
+  - reflexivity.
+  - unfold fbw_ok. rewrite fbw_app, unflushed_app, existsb_app. rewrite IH. cbn.
+    destruct e as [c r| | | | |]; cbn; rewrite ?orb_false_r, ?orb_true_r; try reflexivity.
+    destruct c; reflexivity.
+Qed.
+
+Lemma fbw_ok_mono : forall l st, snd (fold_left fbw_step l st) = true -> snd st = true.
+Proof.
+  induction l as [|e l IH]; cbn; auto. intros [[hs u] ok] H. apply IH in H.
+  destruct e as [c r| | | | |]; cbn in H; auto. destruct c; cbn in H; auto.
+  apply andb_true_iff in H. tauto.
+Qed.
+
+(* every transport read issued before finish_handshake found nothing held back *)
+Lemma fbw_ok_reads log :
+  fbw_ok log = true ->
+  forall pre cap a post, log = pre ++ EvT (TcRead cap) a :: post ->
+    existsb is_finish pre = false -> unflushed pre = [].
+Proof.
+  unfold fbw_ok. intros H pre cap a post -> Hf.
+  rewrite fbw_app in H. cbn [fold_left] in H. apply fbw_ok_mono in H.
+  rewrite fbw_components in H. cbn in H. rewrite Hf in H. cbn in H.
+  apply andb_true_iff in H. destruct H as [_ H].
+  destruct (unflushed pre); [reflexivity|discriminate].
+Qed.
+
+(* ---------------------------------------------------------------------- *)
+(* the theorems for every engine and every transport                        *)
+
+Section Main.
+  Context {T : Type} (tp : transport T).
+  Variable E : Type.
+  Variable eng : E -> option cbret -> E * eact.
+
+  Definition I_all (s : shim) (t : T) (log : list ev) : Prop :=
+    I_bytes s t log /\ I_fbw s t log /\ I_calls s t log.
+
+  Lemma I_all_init t : I_all shim0 t [].
+  Proof.
+    unfold I_all, I_bytes, I_fbw, I_calls. cbn. repeat split; auto.
+  Qed.
+
+  Lemma I_all_cb s t log c tev r s1 t1 :
+    I_all s t log -> cb_effect tp s t c tev r s1 t1 -> I_all s1 t1 (log ++ tev ++ [EvCb c r s1]).
+  Proof.
+    intros (A & B & C) Ef. repeat split.
+    - eapply I_bytes_cb; eauto. - eapply I_bytes_cb; eauto.
+    - eapply I_fbw_cb; eauto. - eapply I_calls_cb; eauto.
+  Qed.
+
+  Lemma I_all_api s t log r : I_all s t log -> I_all s t (log ++ [EvApi r]).
+  Proof.
+    intros (A & B & C). split; [|split].
+    - eapply I_bytes_one; eauto.
+    - apply I_fbw_aux; eauto.
+    - eapply I_calls_one; eauto.
+  Qed.
+
+  Lemma I_all_poll s t log h : I_all s t log -> I_all s t (log ++ [EvPoll h]).
+  Proof.
+    intros (A & B & C). split; [|split].
+    - eapply I_bytes_one; eauto.
+    - apply I_fbw_aux; eauto.
+    - eapply I_calls_one; eauto.
+  Qed.
+
+  Lemma I_all_fin s t log : I_all s t log -> I_all (finish_handshake s) t (log ++ [EvFinish]).
+  Proof.
+    intros (A & B & C). split; [|split].
+    - eapply I_bytes_one; eauto.
+    - apply I_fbw_fin; auto.
+    - eapply I_calls_one; eauto.
+  Qed.
+
+  Lemma I_all_wake s t log : I_all s t log -> I_all s (t_wake tp t) (log ++ [EvWake]).
+  Proof.
+    intros (A & B & C). split; [|split].
+    - eapply I_bytes_one; eauto.
+    - eapply I_fbw_wake; eauto.
+    - eapply I_calls_one; eauto.
+  Qed.
+
+  Definition hs_run_all := inv_hs_run tp I_all I_all_cb I_all_api I_all_fin E eng I_all_poll I_all_wake.
+  Definition top_poll_all := inv_top_poll tp I_all I_all_cb I_all_api E eng I_all_poll.
+  Definition flush_poll_all := inv_flush_poll tp I_all I_all_cb I_all_poll.
+  Definition close_poll_all := inv_close_poll tp I_all I_all_cb I_all_api E eng I_all_poll.
+
+  (* flags follow the log *)
+  Lemma I_fbw_mode s (t : T) log : I_fbw s t log -> handshaken s = existsb is_finish log.
+  Proof. unfold I_fbw. rewrite fbw_components. tauto. Qed.
+
+  Lemma I_fbw_ok s (t : T) log : I_fbw s t log -> fbw_ok log = true.
+  Proof. unfold I_fbw. rewrite fbw_components. tauto. Qed.
+
+  (* -------------------------------------------------------------------- *)
+  (* the handshake, for every engine: bytes pass through unchanged, nothing is
+     held back when the layer starts waiting for input, at most two transport
+     calls per callback *)
+  Theorem hs_run_safe polls fuel e t h st1 e1 s1 t1 log :
+    hs_run tp E eng polls fuel HsStart e shim0 t [] = Ok (h, st1, e1, s1, t1, log) ->
+    eng_wrote log = tr_accepted log /\ eng_read log = tr_delivered log /\
+    fbw_ok log = true /\
+    count is_tcall log <= 2 * count is_cb log.
+  Proof.
+    intros H. apply hs_run_all in H; [|apply I_all_init].
+    destruct H as ((A1 & A2) & B & C). repeat split; auto. eapply I_fbw_ok; eauto.
+  Qed.
+
+  (* -------------------------------------------------------------------- *)
+  (* a completed handshake has left handshake mode and flushed everything    *)
+
+  Lemma cb_effect_hs s t c tev r s1 t1 :
+    cb_effect tp s t c tev r s1 t1 -> handshaken s1 = handshaken s.
+  Proof. intros H; inv H; try reflexivity. destruct a; reflexivity. Qed.
+
+  Lemma cb_run_hs s c t log r s1 t1 log1 :
+    cb_run tp s c t log = Ok (r, s1, t1, log1) -> handshaken s1 = handshaken s.
+  Proof.
+    intros H. apply cb_run_effect in H. destruct H as (tev & Ef & _). eapply cb_effect_hs; eauto.
+  Qed.
+
+  Lemma api_loop_hs : forall fuel e inp s t log r e1 s1 t1 log1,
+    api_loop tp E eng fuel e inp s t log = Ok (r, e1, s1, t1, log1) -> handshaken s1 = handshaken s.
+  Proof.
+    induction fuel as [|f IH]; cbn [api_loop]; intros e inp s t log r e1 s1 t1 log1 H; [discriminate|].
+    destruct (eng e inp) as [e' [c|r']].
+    - apply rbind_ok in H. destruct H as ([[[ret s'] t'] log'] & C & H).
+      apply IH in H. apply cb_run_hs in C. congruence.
+    - inv H. reflexivity.
+  Qed.
+
+  (* a flush callback in established mode that reports success leaves nothing
+     held back *)
+  Lemma flush_cb_ok s t log bs s1 t1 log1 :
+    cb_run tp s CbFlush t log = Ok (ROk bs, s1, t1, log1) -> handshaken s = true ->
+    unflushed log1 = [] /\ s1 = s.
+  Proof.
+    intros H Hs. apply cb_run_effect in H. destruct H as (tev & Ef & ->).
+    inv Ef; [|congruence].
+    destruct a; try discriminate. split; [|reflexivity].
+    rewrite !unflushed_app. cbn. reflexivity.
+  Qed.
+
+  Lemma hs_finish_flush_ok first s t log st s1 t1 log1 :
+    hs_finish_flush tp first s t log = Ok (HOk, st, s1, t1, log1) ->
+    (first = true \/ handshaken s = true) ->
+    st = HsDone /\ handshaken s1 = true /\ unflushed log1 = [].
+  Proof.
+    unfold hs_finish_flush. intros H Hf.
+    apply rbind_ok in H. destruct H as ([[[r s'] t'] log'] & C & H).
+    destruct r; inv H.
+    assert (Hs0 : handshaken (if first then finish_handshake s else s) = true).
+    { destruct first; [reflexivity|]. destruct Hf; [discriminate|assumption]. }
+    apply flush_cb_ok in C; auto. destruct C as [U ->]. auto.
+  Qed.
+
+  Lemma hs_finish_flush_st first s t log h st s1 t1 log1 :
+    hs_finish_flush tp first s t log = Ok (h, st, s1, t1, log1) ->
+    (first = true \/ handshaken s = true) ->
+    handshaken s1 = true /\ (h = HPend -> st = HsFlushing) /\ (h = HOk -> st = HsDone).
+  Proof.
+    unfold hs_finish_flush. intros H Hf.
+    apply rbind_ok in H. destruct H as ([[[r s'] t'] log'] & C & H).
+    assert (Hs0 : handshaken (if first then finish_handshake s else s) = true).
+    { destruct first; [reflexivity|]. destruct Hf; [discriminate|assumption]. }
+    apply cb_run_hs in C. rewrite Hs0 in C.
+    destruct r; inv H; repeat split; auto; discriminate.
+  Qed.
+
+  Definition st_ok (st : hs_st) (s : shim) : Prop :=
+    match st with
+    | HsFlushing => handshaken s = true
+    | HsDone | HsFailed => False
+    | _ => True
+    end.
+
+  Lemma hs_after_st r e s t log h st e1 s1 t1 log1 :
+    hs_after tp E r e s t log = Ok (h, st, e1, s1, t1, log1) ->
+    (h = HPend -> st_ok st s1) /\
+    (h = HOk -> st = HsDone /\ handshaken s1 = true /\ unflushed log1 = []).
+  Proof.
+    unfold hs_after. intros H. destruct r.
+    - apply rbind_ok in H. destruct H as ([[[[h' st'] s'] t'] log'] & F & H). inv H.
+      pose proof (hs_finish_flush_st _ _ _ _ _ _ _ _ _ F (or_introl eq_refl)) as (A & B & C).
+      split.
+      + intros ->. rewrite (B eq_refl). exact A.
+      + intros ->. eapply hs_finish_flush_ok; eauto.
+    - inv H. split; [intros _; exact Logic.I|discriminate].
+    - inv H. split; discriminate.
+  Qed.
+
+  Lemma hs_poll_body_st fuel st e s t log h st1 e1 s1 t1 log1 :
+    hs_poll_body tp E eng fuel st e s t log = Ok (h, st1, e1, s1, t1, log1) -> st_ok st s ->
+    (h = HPend -> st_ok st1 s1) /\
+    (h = HOk -> st1 = HsDone /\ handshaken s1 = true /\ unflushed log1 = []).
+  Proof.
+    unfold hs_poll_body, api_call. intros B Hst. destruct st; cbn in Hst; try contradiction.
+    - apply rbind_ok in B. destruct B as ([[[[r ea] sa] ta] loga] & A & B).
+      destruct r.
+      + eapply hs_after_st; eauto.
+      + apply rbind_ok in B. destruct B as ([[[[r2 eb] sb] tb] logb] & A2 & B).
+        eapply hs_after_st; eauto.
+      + eapply hs_after_st; eauto.
+    - apply rbind_ok in B. destruct B as ([[[[r ea] sa] ta] loga] & A & B).
+      eapply hs_after_st; eauto.
+    - apply rbind_ok in B. destruct B as ([[[[h2 st2] s2] t2] log2] & F & B). inv B.
+      pose proof (hs_finish_flush_st _ _ _ _ _ _ _ _ _ F (or_intror Hst)) as (A & B & C).
+      split.
+      + intros ->. rewrite (B eq_refl). exact A.
+      + intros ->. eapply hs_finish_flush_ok; eauto.
+  Qed.
+
+  Lemma unflushed_plain log e : plain_ev e = true -> unflushed (log ++ [e]) = unflushed log.
+  Proof. intros H. rewrite unflushed_app. destruct e; try discriminate H; reflexivity. Qed.
+
+  Theorem hs_run_done : forall polls fuel st e s t log st1 e1 s1 t1 log1,
+    hs_run tp E eng polls fuel st e s t log = Ok (HOk, st1, e1, s1, t1, log1) -> st_ok st s ->
+    st1 = HsDone /\ handshaken s1 = true /\ unflushed log1 = [].
+  Proof.
+    induction polls as [|p IH]; cbn [hs_run]; intros fuel st e s t log st1 e1 s1 t1 log1 H Hst;
+      [discriminate|].
+    apply rbind_ok in H. destruct H as ([[[[[h' st'] e'] s'] t'] log'] & P & H).
+    unfold hs_poll in P. apply rbind_ok in P.
+    destruct P as ([[[[[h2 st2] e2] s2] t2] log2] & B & P). inv P.
+    apply hs_poll_body_st in B; auto. destruct B as [Bp Bo].
+    destruct h'.
+    - inv H. destruct (Bo eq_refl) as (A1 & A2 & A3). repeat split; auto.
+      rewrite unflushed_plain; auto.
+    - eapply IH; [exact H|]. apply Bp. reflexivity.
+    - discriminate.
+  Qed.
+
+  (* established stream: poll_flush = Ready(Ok) / poll_close = Ready(Ok) mean
+     that the transport has flushed everything it accepted *)
+  Theorem flush_poll_ok s t log s1 t1 log1 :
+    flush_poll tp s t log = Ok (HOk, s1, t1, log1) -> handshaken s = true -> unflushed log1 = [].
+  Proof.
+    unfold flush_poll. intros H Hs.
+    apply rbind_ok in H. destruct H as ([[[r s'] t'] log'] & C & H).
+    destruct r; inv H. apply flush_cb_ok in C; auto. destruct C as [U _].
+    rewrite unflushed_plain; auto.
+  Qed.
+
+  Theorem close_poll_ok fuel sent e s t log sent1 e1 s1 t1 log1 :
+    close_poll tp E eng fuel sent e s t log = Ok (HOk, sent1, e1, s1, t1, log1) ->
+    handshaken s = true -> unflushed log1 = [] /\ sent1 = true.
+  Proof.
+    unfold close_poll, api_call. intros H Hs. destruct sent.
+    - apply rbind_ok in H. destruct H as ([[[r s'] t'] log'] & F & H). inv H.
+      split; [|reflexivity]. eapply flush_poll_ok; eauto.
+    - apply rbind_ok in H. destruct H as ([[[[r e'] s'] t'] log'] & A & H).
+      destruct r.
+      + apply rbind_ok in H. destruct H as ([[[r2 s2] t2] log2] & F & H). inv H.
+        split; [|reflexivity]. eapply flush_poll_ok; eauto.
+        apply api_loop_hs in A. congruence.
+      + inv H.
+      + inv H.
+  Qed.
+
+  (* -------------------------------------------------------------------- *)
+  (* Pending accounting, under the hypothesis that the engine gives up with
+     WouldBlock only right after a callback told it WouldBlock              *)
+
+  Definition np (log : list ev) : nat := count is_tpend log.
+  Definition cpp (log : list ev) : nat := count is_pollpend log.
+
+  Lemma cb_run_np s c t log r s1 t1 log1 :
+    cb_run tp s c t log = Ok (r, s1, t1, log1) ->
+    np log <= np log1 /\ (r = RWouldBlock -> np log1 = np log + 1) /\ cpp log1 = cpp log.
+  Proof.
+    intros H. apply cb_run_effect in H. destruct H as (tev & Ef & ->).
+    pose proof (cb_effect_pend tp _ _ _ _ _ _ _ Ef) as [P1 P2].
+    pose proof (cb_effect_calls tp _ _ _ _ _ _ _ Ef) as (_ & Len & _).
+    unfold np, cpp. rewrite !count_app.
+    assert (Z : count is_pollpend tev = 0).
+    { clear -Len. induction tev as [|e l IH]; [reflexivity|].
+      rewrite !count_cons in *. cbn [length] in Len. pose proof (count_le is_tcall l).
+      destruct e; cbn in *; lia. }
+    rewrite Z. cbn. repeat split; try lia.
+    intros ->. destruct (P1 eq_refl) as [P _]. lia.
+  Qed.
+
+  Hypothesis H_wb : forall e inp e1, eng e inp = (e1, AEnd EWouldBlock) -> inp = Some RWouldBlock.
+
+  Lemma api_loop_np : forall fuel e inp s t log r e1 s1 t1 log1 n0,
+    api_loop tp E eng fuel e inp s t log = Ok (r, e1, s1, t1, log1) ->
+    n0 <= np log -> (inp = Some RWouldBlock -> n0 < np log) ->
+    n0 <= np log1 /\ (r = EWouldBlock -> n0 < np log1) /\ cpp log1 = cpp log.
+  Proof.
+    induction fuel as [|f IH]; cbn [api_loop]; intros e inp s t log r e1 s1 t1 log1 n0 H Le Lt;
+      [discriminate|].
+    destruct (eng e inp) as [e' [c|r']] eqn:En.
+    - apply rbind_ok in H. destruct H as ([[[ret s'] t'] log'] & C & H).
+      apply cb_run_np in C. destruct C as (C1 & C2 & C3).
+      eapply IH in H.
+      + destruct H as (A & B & D). repeat split; eauto. congruence.
+      + lia.
+      + intros Eq. inv Eq. rewrite (C2 eq_refl). lia.
+    - inv H. unfold np, cpp. rewrite !count_app. cbn. repeat split; try (fold (np log); lia).
+      intros ->. apply H_wb in En. fold (np log). specialize (Lt En). lia.
+  Qed.
+
+  Lemma hs_finish_flush_np first s t log h st s1 t1 log1 :
+    hs_finish_flush tp first s t log = Ok (h, st, s1, t1, log1) ->
+    np log <= np log1 /\ (h = HPend -> np log < np log1) /\ cpp log1 = cpp log.
+  Proof.
+    unfold hs_finish_flush. intros H.
+    apply rbind_ok in H. destruct H as ([[[r s'] t'] log'] & C & H).
+    apply cb_run_np in C. destruct C as (C1 & C2 & C3).
+    assert (N : np (if first then log ++ [EvFinish] else log) = np log /\
+                cpp (if first then log ++ [EvFinish] else log) = cpp log).
+    { destruct first; [|auto]. unfold np, cpp. rewrite !count_app. cbn. lia. }
+    destruct N as [N1 N2]. rewrite N1 in *. rewrite N2 in *.
+    destruct r; inv H; repeat split; try lia; try discriminate.
+    intros _. rewrite (C2 eq_refl). lia.
+  Qed.
+
+  Lemma hs_after_np r e s t log h st e1 s1 t1 log1 n0 :
+    hs_after tp E r e s t log = Ok (h, st, e1, s1, t1, log1) ->
+    n0 <= np log -> (r = EWouldBlock -> n0 < np log) ->
+    n0 <= np log1 /\ (h = HPend -> n0 < np log1) /\ cpp log1 = cpp log.
+  Proof.
+    unfold hs_after. intros H Le Lt. destruct r.
+    - apply rbind_ok in H. destruct H as ([[[[h' st'] s'] t'] log'] & F & H). inv H.
+      apply hs_finish_flush_np in F. destruct F as (F1 & F2 & F3).
+      repeat split; try lia. intros Hh. specialize (F2 Hh). lia.
+    - inv H. repeat split; auto.
+    - inv H. repeat split; auto. discriminate.
+  Qed.
+
+  Lemma hs_poll_body_np fuel st e s t log h st1 e1 s1 t1 log1 :
+    hs_poll_body tp E eng fuel st e s t log = Ok (h, st1, e1, s1, t1, log1) ->
+    np log <= np log1 /\ (h = HPend -> np log < np log1) /\ cpp log1 = cpp log.
+  Proof.
+    unfold hs_poll_body, api_call. intros B. destruct st; try discriminate.
+    - apply rbind_ok in B. destruct B as ([[[[r ea] sa] ta] loga] & A & B).
+      eapply api_loop_np with (n0 := np log) in A; [|lia|discriminate].
+      destruct A as (A1 & A2 & A3).
+      destruct r.
+      + eapply hs_after_np with (n0 := np log) in B; [|lia|discriminate].
+        destruct B as (B1 & B2 & B3). repeat split; auto; congruence.
+      + apply rbind_ok in B. destruct B as ([[[[r2 eb] sb] tb] logb] & A' & B).
+        eapply api_loop_np with (n0 := np log) in A'; [|lia|discriminate].
+        destruct A' as (A1' & A2' & A3').
+        eapply hs_after_np with (n0 := np log) in B; [|lia|exact A2'].
+        destruct B as (B1 & B2 & B3). repeat split; auto; congruence.
+      + eapply hs_after_np with (n0 := np log) in B; [|lia|discriminate].
+        destruct B as (B1 & B2 & B3). repeat split; auto; congruence.
+    - apply rbind_ok in B. destruct B as ([[[[r ea] sa] ta] loga] & A & B).
+      eapply api_loop_np with (n0 := np log) in A; [|lia|discriminate].
+      destruct A as (A1 & A2 & A3).
+      eapply hs_after_np with (n0 := np log) in B; [|lia|exact A2].
+      destruct B as (B1 & B2 & B3). repeat split; auto; congruence.
+    - apply rbind_ok in B. destruct B as ([[[[h2 st2] s2] t2] log2] & F & B). inv B.
+      eapply hs_finish_flush_np; eauto.
+  Qed.
+
+  (* no spin: every poll of the handshake future that returns Pending has seen
+     a Pending answer of the transport — whose waker registration is what wakes
+     the task — so polls returning Pending never outnumber Pending answers *)
+  Theorem hs_run_pending : forall polls fuel st e s t log h st1 e1 s1 t1 log1,
+    hs_run tp E eng polls fuel st e s t log = Ok (h, st1, e1, s1, t1, log1) ->
+    cpp log1 + np log <= cpp log + np log1.
+  Proof.
+    induction polls as [|p IH]; cbn [hs_run]; intros fuel st e s t log h st1 e1 s1 t1 log1 H;
+      [discriminate|].
+    apply rbind_ok in H. destruct H as ([[[[[h' st'] e'] s'] t'] log'] & P & H).
+    unfold hs_poll in P. apply rbind_ok in P.
+    destruct P as ([[[[[h2 st2] e2] s2] t2] log2] & B & P). inv P.
+    apply hs_poll_body_np in B. destruct B as (B1 & B2 & B3).
+    destruct h'.
+    - inv H. unfold np, cpp in *. rewrite !count_app. cbn. lia.
+    - apply IH in H. specialize (B2 eq_refl). unfold np, cpp in *.
+      rewrite !count_app in H. cbn in H. lia.
+    - inv H. unfold np, cpp in *. rewrite !count_app. cbn. lia.
+  Qed.
+
+End Main.
+
+(* ---------------------------------------------------------------------- *)
+(* the scripted pipe: the handshake future returns within (#Pending + 1) polls *)
+
+Definition is_cpending (a : cans) : bool := match a with CPending => true | _ => false end.
+Definition pend_left (p : pipe) : nat := count is_cpending (psched p).
+
+Definition tpend1 (a : tres) : nat := match a with TPend => 1 | _ => 0 end.
+
+Lemma pipe_read_total p cap :
+  exists a p1, pipe_read p cap = Ok (a, p1) /\ pend_left p1 + tpend1 a = pend_left p.
+Proof.
+  destruct p as [sch src snk]. unfold pipe_read, pipe_next, pend_left. cbn [psched psrc psink].
+  destruct sch as [|[a|] r].
+  - eexists _, _. split; [reflexivity|]. reflexivity.
+  - destruct (reader_step a cap src) as [[[k|k] bs] src'] eqn:Rs;
+      eexists _, _; (split; [reflexivity|]); cbn [psched]; rewrite count_cons; cbn; lia.
+  - eexists _, _. split; [reflexivity|]. cbn [psched]. rewrite count_cons. cbn. lia.
+Qed.
+
+Lemma pipe_write_total p d :
+  exists a p1, pipe_write p d = Ok (a, p1) /\ pend_left p1 + tpend1 a = pend_left p.
+Proof.
+  destruct p as [sch src snk]. unfold pipe_write, pipe_next, pend_left. cbn [psched psrc psink].
+  destruct sch as [|[a|] r].
+  - eexists _, _. split; [reflexivity|]. reflexivity.
+  - destruct (writer_step a d) as [[k|k] bs] eqn:Ws;
+      eexists _, _; (split; [reflexivity|]); cbn [psched]; rewrite count_cons; cbn; lia.
+  - eexists _, _. split; [reflexivity|]. cbn [psched]. rewrite count_cons. cbn. lia.
+Qed.
+
+Lemma pipe_flush_total p :
+  exists a p1, pipe_flush p = Ok (a, p1) /\ pend_left p1 + tpend1 a = pend_left p.
+Proof.
+  destruct p as [sch src snk]. unfold pipe_flush, pipe_next, pend_left. cbn [psched psrc psink].
+  destruct sch as [|[a|] r].
+  - eexists _, _. split; [reflexivity|]. reflexivity.
+  - destruct a; eexists _, _; (split; [reflexivity|]); cbn [psched]; rewrite count_cons; cbn; lia.
+  - eexists _, _. split; [reflexivity|]. cbn [psched]. rewrite count_cons. cbn. lia.
+Qed.
+
+Lemma cb_run_pipe_total s c t log :
+  exists r s1 t1 log1, cb_run pipe_tp s c t log = Ok (r, s1, t1, log1).
+Proof.
+  unfold cb_run, cb_run_fuel, READ_FUEL. destruct c as [cap|d|]; cbn [inner_read inner_write inner_flush].
+  - destruct (negb (handshaken s) && written s) eqn:C.
+    + cbn [t_flush pipe_tp]. destruct (pipe_flush_total t) as (a & p1 & -> & _). cbn [rbind].
+      destruct a; try (eexists _, _, _, _; reflexivity).
+      cbn [handshaken written set_written]. rewrite andb_false_r.
+      cbn [t_read pipe_tp]. destruct (pipe_read_total p1 cap) as (a & p2 & -> & _).
+      eexists _, _, _, _; reflexivity.
+    + cbn [t_read pipe_tp]. destruct (pipe_read_total t cap) as (a & p2 & -> & _).
+      eexists _, _, _, _; reflexivity.
+  - unfold inner_write. cbn [t_write pipe_tp]. destruct (pipe_write_total t d) as (a & p2 & -> & _).
+    eexists _, _, _, _; reflexivity.
+  - unfold inner_flush. destruct (handshaken s).
+    + cbn [t_flush pipe_tp]. destruct (pipe_flush_total t) as (a & p2 & -> & _).
+      eexists _, _, _, _; reflexivity.
+    + eexists _, _, _, _; reflexivity.
+Qed.
+
+(* Pending answers seen + Pending answers left in the schedule = constant *)
+Definition I_pipe (P : nat) (s : shim) (t : pipe) (log : list ev) : Prop :=
+  count is_tpend log + pend_left t = P.
+
+Lemma is_tpend_tpend1 c a : count is_tpend [EvT c a] = tpend1 a.
+Proof. destruct a; reflexivity. Qed.
+
+Lemma I_pipe_cb P s t log c tev r s1 t1 :
+  I_pipe P s t log -> cb_effect pipe_tp s t c tev r s1 t1 -> I_pipe P s1 t1 (log ++ tev ++ [EvCb c r s1]).
+Proof.
+  unfold I_pipe. intros H Ef. rewrite !count_app. cbn [count filter is_tpend length].
+  inv Ef; cbn [t_read t_write t_flush pipe_tp] in *.
+  - destruct (pipe_read_total t cap) as (a' & p' & Eq & M). rewrite Eq in H1. inv H1.
+    rewrite is_tpend_tpend1. lia.
+  - destruct (pipe_flush_total t) as (a' & p' & Eq & M). rewrite Eq in H1. inv H1.
+    rewrite is_tpend_tpend1. lia.
+  - destruct (pipe_flush_total t) as (a' & p' & Eq & M). rewrite Eq in H1. inv H1.
+    destruct (pipe_read_total t0 cap) as (a'' & p'' & Eq2 & M2). rewrite Eq2 in H2. inv H2.
+    change [EvT TcFlush (TOk x); EvT (TcRead cap) a] with ([EvT TcFlush (TOk x)] ++ [EvT (TcRead cap) a]).
+    rewrite count_app, !is_tpend_tpend1. cbn [tpend1] in *. lia.
+  - destruct (pipe_write_total t d) as (a' & p' & Eq & M). rewrite Eq in H0. inv H0.
+    rewrite is_tpend_tpend1. lia.
+  - destruct (pipe_flush_total t) as (a' & p' & Eq & M). rewrite Eq in H1. inv H1.
+    rewrite is_tpend_tpend1. lia.
+  - cbn. lia.
+Qed.
+
+Lemma I_pipe_one P s t log e s' : I_pipe P s t log -> plain_ev e = true -> I_pipe P s' t (log ++ [e]).
+Proof.
+  unfold I_pipe. intros H A. rewrite count_app. destruct e; try discriminate A; cbn; lia.
+Qed.
+
+Section PipeRun.
+  Variable E : Type.
+  Variable eng : E -> option cbret -> E * eact.
+  Hypothesis H_wb : forall e inp e1, eng e inp = (e1, AEnd EWouldBlock) -> inp = Some RWouldBlock.
+
+  (* "makes progress": an API call ends within B callbacks whatever they return *)
+  Fixpoint ends_within (n : nat) (e : E) (inp : option cbret) : Prop :=
+    match n with
+    | O => False
+    | S k =>
+      match eng e inp with
+      | (_, AEnd _) => True
+      | (e1, ACall _) => forall r, ends_within k e1 (Some r)
+      end
+    end.
+  Variable B : nat.
+  Hypothesis H_bound : forall e, ends_within B e None.
+
+  Lemma api_loop_pipe_total : forall n e inp s t log,
+    ends_within n e inp -> exists res, api_loop pipe_tp E eng n e inp s t log = Ok res.
+  Proof.
+    induction n as [|k IH]; cbn [ends_within api_loop]; intros e inp s t log H; [contradiction|].
+    destruct (eng e inp) as [e1 [c|r]].
+    - destruct (cb_run_pipe_total s c t log) as (r & s1 & t1 & log1 & ->). cbn [rbind].
+      apply IH. apply H.
+    - eexists. reflexivity.
+  Qed.
+
+  Lemma hs_finish_flush_pipe_total first s t log :
+    exists res, hs_finish_flush pipe_tp first s t log = Ok res.
+  Proof.
+    unfold hs_finish_flush.
+    destruct (cb_run_pipe_total (if first then finish_handshake s else s) CbFlush t
+                (if first then log ++ [EvFinish] else log)) as (r & s1 & t1 & log1 & ->).
+    cbn [rbind]. destruct r; eexists; reflexivity.
+  Qed.
+
+  Lemma hs_after_pipe_total r e s t log : exists res, hs_after pipe_tp E r e s t log = Ok res.
+  Proof.
+    unfold hs_after. destruct r; try (eexists; reflexivity).
+    destruct (hs_finish_flush_pipe_total true s t log) as ([[[[h st] s1] t1] log1] & ->).
+    eexists; reflexivity.
+  Qed.
+
+  Lemma hs_poll_pipe_total st e s t log :
+    st_ok st s -> exists res, hs_poll pipe_tp E eng B st e s t log = Ok res.
+  Proof.
+    unfold hs_poll, hs_poll_body, api_call. intros Hst.
+    destruct st; cbn in Hst; try contradiction.
+    - destruct (api_loop_pipe_total B e None s t log (H_bound e)) as ([[[[r e1] s1] t1] log1] & ->).
+      cbn [rbind]. destruct r.
+      + destruct (hs_after_pipe_total EDone e1 s1 t1 log1) as ([[[[[h st] e2] s2] t2] log2] & ->).
+        eexists; reflexivity.
+      + destruct (api_loop_pipe_total B e1 None s1 t1 log1 (H_bound e1)) as ([[[[r2 e2] s2] t2] log2] & ->).
+        cbn [rbind].
+        destruct (hs_after_pipe_total r2 e2 s2 t2 log2) as ([[[[[h st] e3] s3] t3] log3] & ->).
+        eexists; reflexivity.
+      + destruct (hs_after_pipe_total EFail e1 s1 t1 log1) as ([[[[[h st] e2] s2] t2] log2] & ->).
+        eexists; reflexivity.
+    - destruct (api_loop_pipe_total B e None s t log (H_bound e)) as ([[[[r e1] s1] t1] log1] & ->).
+      cbn [rbind].
+      destruct (hs_after_pipe_total r e1 s1 t1 log1) as ([[[[[h st] e2] s2] t2] log2] & ->).
+      eexists; reflexivity.
+    - destruct (hs_finish_flush_pipe_total false s t log) as ([[[[h st] s1] t1] log1] & ->).
+      eexists; reflexivity.
+  Qed.
+
+  Lemma hs_poll_pipe_inv P fuel st e s t log h st1 e1 s1 t1 log1 :
+    hs_poll pipe_tp E eng fuel st e s t log = Ok (h, st1, e1, s1, t1, log1) ->
+    I_pipe P s t log -> I_pipe P s1 t1 log1.
+  Proof.
+    apply (inv_hs_poll pipe_tp (I_pipe P)).
+    - intros; eapply I_pipe_cb; eauto.
+    - intros; eapply I_pipe_one; eauto.
+    - intros; eapply I_pipe_one; eauto.
+    - intros; eapply I_pipe_one; eauto.
+  Qed.
+
+  (* no deadlock, no spin: with at most [polls - 1] Pending answers left in the
+     schedule, the future is Ready after at most [polls] polls *)
+  Theorem hs_run_completes : forall polls st e s t log,
+    st_ok st s -> pend_left t < polls ->
+    exists h st1 e1 s1 t1 log1,
+      hs_run pipe_tp E eng polls B st e s t log = Ok (h, st1, e1, s1, t1, log1) /\ h <> HPend.
+  Proof.
+    induction polls as [|p IH]; intros st e s t log Hst Lt; [lia|].
+    cbn [hs_run].
+    destruct (hs_poll_pipe_total st e s t log Hst) as ([[[[[h st1] e1] s1] t1] log1] & P).
+    rewrite P. cbn [rbind].
+    destruct h; try (eexists _, _, _, _, _, _; split; [reflexivity|discriminate]).
+    pose proof (hs_poll_pipe_inv _ _ _ _ _ _ _ _ _ _ _ _ _ P eq_refl) as Inv.
+    unfold I_pipe in Inv.
+    unfold hs_poll in P. apply rbind_ok in P.
+    destruct P as ([[[[[h2 st2] e2] s2] t2] log2] & Bd & P). inv P.
+    pose proof (hs_poll_body_np pipe_tp E eng H_wb _ _ _ _ _ _ _ _ _ _ _ _ Bd) as (N1 & N2 & _).
+    pose proof (hs_poll_body_st pipe_tp E eng _ _ _ _ _ _ _ _ _ _ _ _ Bd Hst) as [S1 _].
+    specialize (N2 eq_refl). specialize (S1 eq_refl).
+    rewrite count_app in Inv. cbn in Inv. unfold np in *.
+    cbn [t_wake pipe_tp].
+    apply IH; auto. lia.
+  Qed.
+
+End PipeRun.
+
+(* ---------------------------------------------------------------------- *)
+(* over compio-io's poll adapter (C12): the bytes the engine emits / consumes
+   are the bytes of the inner stream, once, in order                        *)
+
+Lemma run_app {Op : Type} (step : Op -> stream -> R (out * stream)) : forall ops1 ops2 s outs1 s1,
+  run step ops1 s = Ok (outs1, s1) ->
+  run step (ops1 ++ ops2) s =
+  (let! '(outs2, s2) := run step ops2 s1 in Ok (outs1 ++ outs2, s2)).
+Proof.
+  induction ops1 as [|op ops IH]; cbn [run app]; intros ops2 s outs1 s1 H.
+  - inv H. destruct (run step ops2 s1) as [[o2 s2]|c]; reflexivity.
+  - apply rbind_ok in H. destruct H as ([o sa] & St & H). rewrite St. cbn [rbind].
+    apply rbind_ok in H. destruct H as ([os sb] & Rn & H). inv H.
+    rewrite (IH ops2 _ _ _ Rn).
+    destruct (run step ops2 s1) as [[o2 s2]|c]; reflexivity.
+Qed.
+
+Lemma run_snoc {Op : Type} (step : Op -> stream -> R (out * stream)) ops op s outs s1 o s2 :
+  run step ops s = Ok (outs, s1) -> step op s1 = Ok (o, s2) ->
+  run step (ops ++ [op]) s = Ok (outs ++ [o], s2).
+Proof.
+  intros H St. rewrite (run_app step _ [op] _ _ _ H). cbn [run]. rewrite St. reflexivity.
+Qed.
+
+Lemma handed_app a b : handed (a ++ b) = handed a ++ handed b.
+Proof. unfold handed. apply flat_map_app. Qed.
+Lemma accepted_app a b : accepted (a ++ b) = accepted a ++ accepted b.
+Proof. unfold accepted. apply flat_map_app. Qed.
+
+Section OverCompat.
+  Variable cfuel : nat.
+  Variable st0 : stream.
+
+  (* the log stands for a program of adapter calls whose outputs carry exactly
+     the bytes the log records *)
+  Definition I_sync (s : shim) (t : stream) (log : list ev) : Prop :=
+    exists outs, run (poll_step_fuel cfuel) (pops_of log) st0 = Ok (outs, t) /\
+                 handed outs = tr_delivered log /\ accepted outs = tr_accepted log.
+
+  Lemma pops_of_app a b : pops_of (a ++ b) = pops_of a ++ pops_of b.
+  Proof. unfold pops_of. apply flat_map_app. Qed.
+  Lemma tr_delivered_app a b : tr_delivered (a ++ b) = tr_delivered a ++ tr_delivered b.
+  Proof. unfold tr_delivered. apply flat_map_app. Qed.
+  Lemma tr_accepted_app a b : tr_accepted (a ++ b) = tr_accepted a ++ tr_accepted b.
+  Proof. unfold tr_accepted. apply flat_map_app. Qed.
+
+  Lemma I_sync_silent s t log e s' :
+    I_sync s t log -> pops_of [e] = [] -> tr_delivered [e] = [] -> tr_accepted [e] = [] ->
+    I_sync s' t (log ++ [e]).
+  Proof.
+    intros (outs & R & H1 & H2) P D A. exists outs.
+    rewrite pops_of_app, tr_delivered_app, tr_accepted_app, P, D, A, !app_nil_r. auto.
+  Qed.
+
+  Lemma sync_read s t log cap a t1 s' :
+    I_sync s t log -> compat_read cfuel t cap = Ok (a, t1) ->
+    I_sync s' t1 (log ++ [EvT (TcRead cap) a]).
+  Proof.
+    intros (outs & R & H1 & H2) C. unfold compat_read in C.
+    apply rbind_ok in C. destruct C as ([o sa] & St & C).
+    assert (X : a = match o with ORd (PRBytes bs) => TOk bs | ORd (PRErr k) => TErr k | _ => TPend end
+                /\ sa = t1 /\ tr_delivered [EvT (TcRead cap) a] = handed_of o /\ accepted_of o = []).
+    { destruct o as [r|r|bs|d r|r|oo|oo|l|]; try discriminate C.
+      destruct r; inv C; cbn; rewrite ?app_nil_r; auto. }
+    destruct X as (-> & -> & D & A).
+    exists (outs ++ [o]). rewrite pops_of_app. cbn [pops_of flat_map pop_of_ev app].
+    split; [eapply run_snoc; eauto|].
+    rewrite handed_app, accepted_app, tr_delivered_app, tr_accepted_app, H1, H2, D.
+    unfold handed, accepted. cbn [flat_map]. rewrite A, !app_nil_r.
+    split; reflexivity.
+  Qed.
+
+  Lemma sync_write s t log d a t1 s' :
+    I_sync s t log -> compat_write cfuel t d = Ok (a, t1) ->
+    I_sync s' t1 (log ++ [EvT (TcWrite d) a]).
+  Proof.
+    intros (outs & R & H1 & H2) C. unfold compat_write in C.
+    apply rbind_ok in C. destruct C as ([o sa] & St & C).
+    exists (outs ++ [o]). rewrite pops_of_app. cbn [pops_of flat_map pop_of_ev app].
+    destruct o as [r|r|bs|d' r|r|oo|oo|l|]; try discriminate C.
+    assert (Ed : d' = d).
+    { unfold poll_step_fuel in St. apply rbind_ok in St. destruct St as ([r' h] & _ & St). inv St. reflexivity. }
+    subst d'.
+    destruct r; inv C;
+      (split; [eapply run_snoc; eauto|]);
+      rewrite handed_app, accepted_app, tr_delivered_app, tr_accepted_app, H1, H2;
+      unfold handed, accepted; cbn; rewrite ?app_nil_r; auto.
+  Qed.
+
+  Lemma sync_flush s t log a t1 s' :
+    I_sync s t log -> compat_flush cfuel t = Ok (a, t1) ->
+    I_sync s' t1 (log ++ [EvT TcFlush a]).
+  Proof.
+    intros (outs & R & H1 & H2) C. unfold compat_flush in C.
+    apply rbind_ok in C. destruct C as ([o sa] & St & C).
+    exists (outs ++ [o]). rewrite pops_of_app. cbn [pops_of flat_map pop_of_ev app].
+    destruct o as [r|r|bs|d' r|r|oo|oo|l|]; try discriminate C.
+    destruct r; inv C;
+      (split; [eapply run_snoc; eauto|]);
+      rewrite handed_app, accepted_app, tr_delivered_app, tr_accepted_app, H1, H2;
+      unfold handed, accepted; cbn; rewrite ?app_nil_r; auto.
+  Qed.
+
+  Lemma I_sync_cb s t log c tev r s1 t1 :
+    I_sync s t log -> cb_effect (compat_tp cfuel) s t c tev r s1 t1 ->
+    I_sync s1 t1 (log ++ tev ++ [EvCb c r s1]).
+  Proof.
+    intros H Ef. rewrite app_assoc. apply I_sync_silent with (s := s1); try reflexivity.
+    inv Ef; cbn [t_read t_write t_flush compat_tp] in *.
+    - eapply sync_read; eauto.
+    - eapply sync_flush; eauto.
+    - change [EvT TcFlush (TOk x); EvT (TcRead cap) a] with ([EvT TcFlush (TOk x)] ++ [EvT (TcRead cap) a]).
+      rewrite app_assoc. eapply sync_read; eauto. eapply sync_flush with (s' := s); eauto.
+    - eapply sync_write; eauto.
+    - eapply sync_flush; eauto.
+    - rewrite app_nil_r. destruct H as (outs & R & H1 & H2). exists outs. auto.
+  Qed.
+
+  Lemma I_sync_wake s t log : I_sync s t log -> I_sync s (compat_wake t) (log ++ [EvWake]).
+  Proof.
+    intros (outs & R & H1 & H2). unfold compat_wake.
+    destruct (rd_wake (rh t)) as [l1 h1] eqn:W1. destruct (wr_wake (wh t)) as [l2 h2] eqn:W2.
+    exists (outs ++ [OWoken l1; OWoken l2]).
+    rewrite pops_of_app. cbn [pops_of flat_map pop_of_ev app].
+    split.
+    - rewrite (run_app _ _ [PWakeR; PWakeW] _ _ _ R). cbn [run poll_step_fuel].
+      rewrite W1. cbn [rbind rh wh]. rewrite W2. cbn [rbind]. reflexivity.
+    - rewrite handed_app, accepted_app, tr_delivered_app, tr_accepted_app, H1, H2.
+      unfold handed, accepted. cbn. rewrite !app_nil_r. auto.
+  Qed.
+
+  Variable E : Type.
+  Variable eng : E -> option cbret -> E * eact.
+
+  Lemma hs_run_sync polls fuel st e s t log h st1 e1 s1 t1 log1 :
+    hs_run (compat_tp cfuel) E eng polls fuel st e s t log = Ok (h, st1, e1, s1, t1, log1) ->
+    I_sync s t log -> I_sync s1 t1 log1.
+  Proof.
+    apply (inv_hs_run (compat_tp cfuel) I_sync).
+    - intros; eapply I_sync_cb; eauto.
+    - intros; eapply I_sync_silent; eauto.
+    - intros; eapply I_sync_silent; eauto.
+    - intros; eapply I_sync_silent; eauto.
+    - intros; apply I_sync_wake; auto.
+  Qed.
+End OverCompat.
+
+(* the handshake over AsyncStream over ANY inner stream (schedules rs / ws,
+   payload src), for every engine: what the engine was told it read is a prefix
+   of the inner reader's payload (the rest is buffered or not yet delivered),
+   what it was told it wrote is what the inner writer received plus what the
+   adapter still holds *)
+Theorem hs_over_compat_fifo E eng cfuel base mx rs src ws polls fuel e h st1 e1 s1 t1 log :
+  hs_run (compat_tp cfuel) E eng polls fuel HsStart e shim0 (st_new base mx rs src ws) [] =
+    Ok (h, st1, e1, s1, t1, log) ->
+  eng_read log ++ buf_pending (rb (rh t1)) ++ rsrc (rh t1) = src /\
+  sink_bytes (wlog (wh t1)) ++ buf_pending (wb (wh t1)) = eng_wrote log.
+Proof.
+  intros H.
+  pose proof (hs_run_safe (compat_tp cfuel) E eng _ _ _ _ _ _ _ _ _ _ H) as (B1 & B2 & _).
+  apply (hs_run_sync cfuel (st_new base mx rs src ws)) in H.
+  - destruct H as (outs & R & H1 & H2).
+    pose proof (poll_fifo _ _ _ _ _ _ _ _ _ R) as (F1 & F2 & _).
+    rewrite B1, B2, <- H1, <- H2. auto.
+  - exists []. cbn. auto.
+Qed.
+
+(* ---------------------------------------------------------------------- *)
+(* compio-ws                                                                *)
+
+(* the loop of poll_next makes at most two iterations *)
+Lemma ws_poll_next_fuel f ni ns fs calls :
+  ws_poll_next (S (S f)) ni ns fs calls = ws_poll_next 2 ni ns fs calls /\
+  exists res, ws_poll_next 2 ni ns fs calls = Some res.
+Proof.
+  cbn [ws_poll_next]. destruct ni as [item|].
+  - destruct (ws_flush2 fs calls) as [[a fs1] c1]. destruct a; split; eauto.
+  - destruct (nnext ns) as [a ns1]. destruct a.
+    + destruct (ws_flush2 fs (calls ++ [WcNext])) as [[a fs1] c1]. destruct f; destruct a; split; eauto.
+    + destruct (ws_flush2 fs (calls ++ [WcNext])) as [[a fs1] c1]. destruct f; destruct a; split; eauto.
+    + split; eauto.
+Qed.
+
+Lemma ws_flush2_ok fs calls fs1 calls1 :
+  ws_flush2 fs calls = (FOk, fs1, calls1) -> calls1 = calls ++ [WcFlushEngine; WcFlushTransport].
+Proof.
+  unfold ws_flush2. destruct (fnext fs) as [a1 r1]. destruct a1; intros H; try (inv H; fail).
+  destruct (fnext r1) as [a2 r2]. inv H. rewrite <- app_assoc. reflexivity.
+Qed.
+
+(* flush before yield: an item leaves poll_next only in a call that has just
+   flushed the engine's write queue and then the transport, both successfully;
+   nothing stays parked afterwards *)
+Theorem ws_yield_after_flush ni ns fs calls item ni1 ns1 fs1 calls1 :
+  ws_poll_next WS_FUEL ni ns fs calls = Some (WYield item, ni1, ns1, fs1, calls1) ->
+  ni1 = None /\ exists pre, calls1 = pre ++ [WcFlushEngine; WcFlushTransport].
+Proof.
+  unfold WS_FUEL. cbn [ws_poll_next]. destruct ni as [it|].
+  - destruct (ws_flush2 fs calls) as [[a fs'] c'] eqn:F. destruct a; intros H; inv H.
+    split; [reflexivity|]. exists calls. eapply ws_flush2_ok; eauto.
+  - destruct (nnext ns) as [a ns']. destruct a; try (intros H; inv H; fail).
+    + destruct (ws_flush2 fs (calls ++ [WcNext])) as [[a fs'] c'] eqn:F. destruct a; intros H; inv H.
+      split; [reflexivity|]. exists (calls ++ [WcNext]). eapply ws_flush2_ok; eauto.
+    + destruct (ws_flush2 fs (calls ++ [WcNext])) as [[a fs'] c'] eqn:F. destruct a; intros H; inv H.
+      split; [reflexivity|]. exists (calls ++ [WcNext]). eapply ws_flush2_ok; eauto.
+Qed.
+
+Definition yielded (r : wres) : list N := match r with WYield (Some m) => [m] | _ => [] end.
+
+(* one call: what it hands out ++ what it parks ++ what the engine has not
+   produced yet is unchanged — nothing lost, duplicated or reordered *)
+Lemma ws_poll_next_fifo ni ns fs calls r ni1 ns1 fs1 calls1 :
+  ws_poll_next WS_FUEL ni ns fs calls = Some (r, ni1, ns1, fs1, calls1) ->
+  yielded r ++ parked ni1 ++ nitems ns1 = parked ni ++ nitems ns.
+Proof.
+  unfold WS_FUEL. cbn [ws_poll_next]. destruct ni as [it|].
+  - destruct (ws_flush2 fs calls) as [[a fs'] c']. destruct a; intros H; inv H; cbn.
+    + destruct it; reflexivity.
+    + reflexivity.
+    + reflexivity.
+  - destruct ns as [|a ns']; cbn [nnext].
+    + destruct (ws_flush2 fs (calls ++ [WcNext])) as [[a fs'] c']. destruct a; intros H; inv H; reflexivity.
+    + destruct a.
+      * destruct (ws_flush2 fs (calls ++ [WcNext])) as [[a fs'] c']. destruct a; intros H; inv H; reflexivity.
+      * destruct (ws_flush2 fs (calls ++ [WcNext])) as [[a fs'] c']. destruct a; intros H; inv H; reflexivity.
+      * intros H; inv H. reflexivity.
+Qed.
+
+Theorem ws_reader_fifo : forall polls ni ns fs got calls got1 ni1 ns1 fs1 calls1 fin,
+  ws_reader polls ni ns fs got calls = (got1, ni1, ns1, fs1, calls1, fin) ->
+  got1 ++ parked ni1 ++ nitems ns1 = got ++ parked ni ++ nitems ns.
+Proof.
+  induction polls as [|p IH]; cbn [ws_reader]; intros ni ns fs got calls got1 ni1 ns1 fs1 calls1 fin H.
+  - inv H. reflexivity.
+  - destruct (ws_poll_next WS_FUEL ni ns fs calls) as [[[[[r ni'] ns'] fs'] c']|] eqn:P.
+    + apply ws_poll_next_fifo in P.
+      destruct r as [[m|]|k|].
+      * apply IH in H. cbn in P. rewrite H, <- app_assoc. cbn. rewrite <- P. reflexivity.
+      * inv H. cbn in P. rewrite P. reflexivity.
+      * apply IH in H. cbn in P. rewrite H, P. reflexivity.
+      * apply IH in H. cbn in P. rewrite H, P. reflexivity.
+    + inv H. reflexivity.
+Qed.
+
+(* no stall, no spin: every call either ends the stream or uses up at least one
+   answer of the environment (or hands out the parked item) *)
+Definition ws_measure (ni : option (option N)) (ns : list nans) (fs : list fans) : nat :=
+  2 * length ns + length fs +
+  match ni with Some (Some _) => 2 | None => 1 | Some None => 0 end.
+
+Lemma ws_flush2_len fs calls a fs1 calls1 :
+  ws_flush2 fs calls = (a, fs1, calls1) ->
+  length fs1 <= length fs /\ (a <> FOk -> length fs1 < length fs).
+Proof.
+  unfold ws_flush2.
+  assert (Fin : forall (a : fans) (n m : nat), (a = FOk -> n <= m) -> (a <> FOk -> n < m) ->
+                n <= m /\ (a <> FOk -> n < m)).
+  { intros a0 n m H1 H2. split; [|exact H2]. destruct a0; [apply H1; reflexivity| |];
+      (assert (n < m) by (apply H2; discriminate); lia). }
+  destruct fs as [|a1 r1]; cbn [fnext].
+  - intros H; inv H. apply Fin; intros X; [cbn; lia|exfalso; apply X; reflexivity].
+  - destruct a1.
+    + destruct r1 as [|a2 r2]; cbn [fnext]; intros H; inv H; apply Fin; intros X; cbn; lia.
+    + intros H; inv H. apply Fin; intros X; cbn; lia.
+    + intros H; inv H. apply Fin; intros X; cbn; lia.
+Qed.
+
+Lemma ws_poll_next_measure ni ns fs calls r ni1 ns1 fs1 calls1 :
+  ws_poll_next WS_FUEL ni ns fs calls = Some (r, ni1, ns1, fs1, calls1) ->
+  r = WYield None \/ ws_measure ni1 ns1 fs1 < ws_measure ni ns fs.
+Proof.
+  assert (G : forall a (fs fs' : list fans), (length fs' <= length fs /\ (a <> FOk -> length fs' < length fs)) ->
+               a <> FOk -> length fs' < length fs) by (intros a0 f1 f2 [_ X] Y; auto).
+  unfold WS_FUEL, ws_measure. cbn [ws_poll_next]. destruct ni as [it|].
+  - destruct (ws_flush2 fs calls) as [[a fs'] c'] eqn:F. apply ws_flush2_len in F.
+    destruct a; intros H; inv H.
+    + destruct it; [right; lia|left; reflexivity].
+    + right. apply G in F; [|discriminate]. lia.
+    + right. apply G in F; [|discriminate]. lia.
+  - destruct ns as [|a ns']; cbn [nnext].
+    + destruct (ws_flush2 fs (calls ++ [WcNext])) as [[a fs'] c'] eqn:F. apply ws_flush2_len in F.
+      destruct a; intros H; inv H.
+      * left. reflexivity.
+      * right. apply G in F; [|discriminate]. cbn [length]. lia.
+      * right. apply G in F; [|discriminate]. cbn [length]. lia.
+    + destruct a.
+      * destruct (ws_flush2 fs (calls ++ [WcNext])) as [[a fs'] c'] eqn:F. apply ws_flush2_len in F.
+        destruct a; intros H; inv H; right; cbn [length].
+        -- lia.
+        -- apply G in F; [|discriminate]. lia.
+        -- apply G in F; [|discriminate]. lia.
+      * destruct (ws_flush2 fs (calls ++ [WcNext])) as [[a fs'] c'] eqn:F. apply ws_flush2_len in F.
+        destruct a; intros H; inv H.
+        -- left. reflexivity.
+        -- right. apply G in F; [|discriminate]. cbn [length]. lia.
+        -- right. apply G in F; [|discriminate]. cbn [length]. lia.
+      * intros H; inv H. right. cbn [length]. lia.
+Qed.
+
+Theorem ws_reader_completes : forall polls ni ns fs got calls,
+  ws_measure ni ns fs < polls ->
+  exists got1 ni1 ns1 fs1 calls1,
+    ws_reader polls ni ns fs got calls = (got1, ni1, ns1, fs1, calls1, true).
+Proof.
+  induction polls as [|p IH]; intros ni ns fs got calls Lt; [lia|].
+  cbn [ws_reader].
+  destruct (ws_poll_next_fuel 0 ni ns fs calls) as [_ [[[[[r ni'] ns'] fs'] c'] P]].
+  fold WS_FUEL in P. rewrite P.
+  pose proof (ws_poll_next_measure _ _ _ _ _ _ _ _ _ P) as [-> | M].
+  - eexists _, _, _, _, _. reflexivity.
+  - destruct r as [[m|]|k|].
+    + apply IH. lia.
+    + eexists _, _, _, _, _. reflexivity.
+    + apply IH. lia.
+    + apply IH. lia.
+Qed.
+
+(* a Pending result means the last answer taken was a Pending one: the engine
+   or the transport holds the waker *)
+Theorem ws_pending_registered ni ns fs calls ni1 ns1 fs1 calls1 :
+  ws_poll_next WS_FUEL ni ns fs calls = Some (WPending, ni1, ns1, fs1, calls1) ->
+  (exists pre, ns = pre ++ NPend :: ns1 /\ fs1 = fs) \/
+  (exists pre, fs = pre ++ FPend :: fs1 /\ ni1 <> None).
+Proof.
+  assert (G : forall fs calls fs1 calls1, ws_flush2 fs calls = (FPend, fs1, calls1) ->
+                exists pre, fs = pre ++ FPend :: fs1).
+  { clear. intros fs calls fs1 calls1. unfold ws_flush2. destruct fs as [|a1 r1]; cbn [fnext].
+    - intros H; inv H.
+    - destruct a1.
+      + destruct r1 as [|a2 r2]; cbn [fnext]; intros H; inv H. exists [FOk]. reflexivity.
+      + intros H; inv H. exists []. reflexivity.
+      + intros H; inv H. }
+  unfold WS_FUEL. cbn [ws_poll_next]. destruct ni as [it|].
+  - destruct (ws_flush2 fs calls) as [[a fs'] c'] eqn:F. destruct a; intros H; inv H.
+    right. apply G in F. destruct F as [pre ->]. exists pre. split; [reflexivity|discriminate].
+  - destruct ns as [|a ns']; cbn [nnext].
+    + destruct (ws_flush2 fs (calls ++ [WcNext])) as [[a fs'] c'] eqn:F. destruct a; intros H; inv H.
+      right. apply G in F. destruct F as [pre ->]. exists pre. split; [reflexivity|discriminate].
+    + destruct a.
+      * destruct (ws_flush2 fs (calls ++ [WcNext])) as [[a fs'] c'] eqn:F. destruct a; intros H; inv H.
+        right. apply G in F. destruct F as [pre ->]. exists pre. split; [reflexivity|discriminate].
+      * destruct (ws_flush2 fs (calls ++ [WcNext])) as [[a fs'] c'] eqn:F. destruct a; intros H; inv H.
+        right. apply G in F. destruct F as [pre ->]. exists pre. split; [reflexivity|discriminate].
+      * intros H; inv H. left. exists []. split; reflexivity.
+Qed.
+
+(* ---------------------------------------------------------------------- *)
+(* statements assembled for prop/C15.v                                      *)
+
+(* a callback that reports would-block has just seen the transport answer
+   Pending (which registered the task's waker) *)
+Lemma cb_wouldblock_registered {T} (tp : transport T) s c t log s1 t1 log1 :
+  cb_run tp s c t log = Ok (RWouldBlock, s1, t1, log1) ->
+  exists pre c', log1 = log ++ pre ++ [EvT c' TPend; EvCb c RWouldBlock s1].
+Proof.
+  intros H. apply cb_run_effect in H. destruct H as (tev & Ef & ->).
+  apply cb_effect_pend in Ef. destruct Ef as [P _]. destruct (P eq_refl) as (_ & pre & c' & ->).
+  exists pre, c'. rewrite <- !app_assoc. reflexivity.
+Qed.
+
+(* whenever the layer waits (a transport call answered Pending) before
+   finish_handshake: it waits for a flush or a write to go on, or nothing is
+   held back *)
+Lemma fbw_ok_waits log :
+  fbw_ok log = true ->
+  forall pre c post, log = pre ++ EvT c TPend :: post -> existsb is_finish pre = false ->
+    c = TcFlush \/ (exists d, c = TcWrite d) \/ unflushed pre = [].
+Proof.
+  intros H pre c post Eq Hf. destruct c as [cap|d|]; eauto.
+  right. right. eapply fbw_ok_reads; eauto.
+Qed.
+
+Theorem hs_no_stall (E : Type) (eng : E -> option cbret -> E * eact) (B : nat) :
+  (forall e inp e1, eng e inp = (e1, AEnd EWouldBlock) -> inp = Some RWouldBlock) ->
+  (forall e, ends_within E eng B e None) ->
+  forall sched src e,
+  exists h st1 e1 s1 p1 log,
+    hs_run pipe_tp E eng (S (count is_cpending sched)) B HsStart e shim0 (mkpipe sched src []) [] =
+      Ok (h, st1, e1, s1, p1, log) /\
+    h <> HPend /\
+    count is_pollpend log <= count is_tpend log /\
+    count is_tcall log <= 2 * count is_cb log.
+Proof.
+  intros Hwb Hb sched src e.
+  destruct (hs_run_completes E eng Hwb B Hb (S (count is_cpending sched)) HsStart e shim0
+              (mkpipe sched src []) []) as (h & st1 & e1 & s1 & p1 & log & R & Nh).
+  - exact Logic.I.
+  - unfold pend_left. cbn [psched]. lia.
+  - exists h, st1, e1, s1, p1, log. split; [exact R|]. split; [exact Nh|].
+    pose proof (hs_run_pending pipe_tp E eng Hwb _ _ _ _ _ _ _ _ _ _ _ _ _ R) as P.
+    pose proof (hs_run_safe pipe_tp E eng _ _ _ _ _ _ _ _ _ _ R) as (_ & _ & _ & C).
+    unfold cpp, np in P. cbn in P. split; [lia|exact C].
+Qed.
+
+Theorem hs_flush_before_wait {T} (tp : transport T) (E : Type) (eng : E -> option cbret -> E * eact)
+  polls fuel e t h st1 e1 s1 t1 log :
+  hs_run tp E eng polls fuel HsStart e shim0 t [] = Ok (h, st1, e1, s1, t1, log) ->
+  (forall pre c post, log = pre ++ EvT c TPend :: post -> existsb is_finish pre = false ->
+     c = TcFlush \/ (exists d, c = TcWrite d) \/ unflushed pre = []) /\
+  (forall pre cap a post, log = pre ++ EvT (TcRead cap) a :: post -> existsb is_finish pre = false ->
+     unflushed pre = []) /\
+  (h = HOk -> st1 = HsDone /\ handshaken s1 = true /\ unflushed log = []).
+Proof.
+  intros H.
+  pose proof (hs_run_safe tp E eng _ _ _ _ _ _ _ _ _ _ H) as (_ & _ & F & _).
+  split; [apply fbw_ok_waits; exact F|]. split; [apply fbw_ok_reads; exact F|].
+  intros ->. eapply hs_run_done; [exact H|exact Logic.I].
+Qed.
+
+Lemma toy_wb : forall e inp e1, toy_eng e inp = (e1, AEnd EWouldBlock) -> inp = Some RWouldBlock.
+Proof.
+  intros e inp e1 H. destruct e; destruct inp as [[bs| |k]|]; cbn in H; inv H; reflexivity.
+Qed.
+
+Lemma toy_bound : forall e, ends_within toy toy_eng 4 e None.
+Proof.
+  intros e. destruct e; cbn; auto;
+    repeat (let r := fresh "r" in intros r; destruct r; cbn; auto).
+Qed.
